@@ -76,20 +76,20 @@ theorem ReqOk.rel {t t' : Tree} {r : Req} (h : TRel t t') (hr : ReqOk t r) : Req
 theorem doHC_restack_ok {t : Tree} (inv : TInv t) {c : Change} {parent win : Nat} {ww : Win}
     (hc : isRestack c = true)
     (hw : LiveW t win ww) (hp : ww.parent = some parent) :
-    ∃ t', doHC t c parent win = .ok t' ∧ TRel t t' ∧ t'.root = t.root := by
+    ∃ t', doHC t c parent win = .ok t' ∧ TRel t t' ∧ t'.root = t.root ∧ SameRC t t' := by
   obtain ⟨_, pw, hpl, hmem⟩ := inv.parent_ok win ww hw parent hp
   have key : ∀ cs : List Nat, cs.Perm pw.children →
       ∃ t', (if ww.isVisible = true then (do
                 exposeWalk (WinTree.set t parent { pw with children := cs })
                   (chainFuel (WinTree.set t parent { pw with children := cs })) parent (some ww.rect)
                 pure (WinTree.set t parent { pw with children := cs }))
-             else pure (WinTree.set t parent { pw with children := cs })) = Out.ok t' ∧ TRel t t' ∧ t'.root = t.root := by
+             else pure (WinTree.set t parent { pw with children := cs })) = Out.ok t' ∧ TRel t t' ∧ t'.root = t.root ∧ SameRC t t' := by
     intro cs hperm
     have hrel : TRel t (WinTree.set t parent { pw with children := cs }) := trel_set hpl.1 (wrel_children hperm)
     have inv' : TInv (WinTree.set t parent { pw with children := cs }) :=
       inv.of_rel hrel (fun r hr => hr) (fun s hs => hs)
     obtain ⟨pw', hpl', _⟩ := hrel.live hpl
-    refine ⟨WinTree.set t parent { pw with children := cs }, ?_, hrel, rfl⟩
+    refine ⟨WinTree.set t parent { pw with children := cs }, ?_, hrel, rfl, SameRC.set hpl.1 rfl⟩
     split
     · rw [exposeWalk_ok inv' parent pw' hpl' _ (chainFuel_gt hpl')]; rfl
     · rfl
@@ -110,29 +110,30 @@ theorem doHC_restack_ok {t : Tree} (inv : TInv t) {c : Change} {parent win : Nat
 /-- The request loop of `tickit_window_flush`. -/
 theorem runRequests_ok : ∀ (reqs : List Req) {t : Tree}, TInv t → t.root.changes = [] →
     (∀ r ∈ reqs, ReqOk t r ∧ isRestack r.change = true) →
-    ∃ t', runRequests t reqs = .ok t' ∧ TInv t' ∧ TRel t t' ∧ t'.root = t.root
-  | [], t, inv, _, _ => ⟨t, rfl, inv, TRel.refl t, rfl⟩
+    ∃ t', runRequests t reqs = .ok t' ∧ TInv t' ∧ TRel t t' ∧ t'.root = t.root ∧ SameRC t t'
+  | [], t, inv, _, _ => ⟨t, rfl, inv, TRel.refl t, rfl, SameRC.refl t⟩
   | r :: rest, t, inv, hch, hreq => by
     obtain ⟨⟨ww, hw, hp⟩, hkind⟩ := hreq r (by simp)
-    obtain ⟨t1, h1, hrel1, hroot1⟩ := doHC_restack_ok inv hkind hw hp
+    obtain ⟨t1, h1, hrel1, hroot1, hrc1⟩ := doHC_restack_ok inv hkind hw hp
     have inv1 : TInv t1 := inv.of_rel hrel1 (by rw [hroot1]; intro r hr; exact hr) (by rw [hroot1]; intro s hs; exact hs)
-    obtain ⟨t2, h2, inv2, hrel2, hroot2⟩ := runRequests_ok rest inv1 (by rw [hroot1]; exact hch)
+    obtain ⟨t2, h2, inv2, hrel2, hroot2, hrc2⟩ := runRequests_ok rest inv1 (by rw [hroot1]; exact hch)
       (fun r' hr' => ⟨(hreq r' (by simp [hr'])).1.rel hrel1, (hreq r' (by simp [hr'])).2⟩)
-    refine ⟨t2, ?_, inv2, hrel1.trans hrel2, hroot2.trans hroot1⟩
+    refine ⟨t2, ?_, inv2, hrel1.trans hrel2, hroot2.trans hroot1, SameRC.trans hrel1 hrc1 hrc2⟩
     unfold runRequests
     simp only [h1, bind_ok]
     exact h2
 
 /-- `tickit_window_flush(root)`: every queued request is executed; the tree keeps its invariant. -/
 theorem flushT_ok {t : Tree} (inv : TInv t) {r : Win} (hroot : LiveW t 0 r) :
-    ∃ t', flushT t = .ok t' ∧ TInv t' ∧ TRel t t' ∧ t'.root.changes = [] ∧ t'.root.dragSource = t.root.dragSource := by
+    ∃ t', flushT t = .ok t' ∧ TInv t' ∧ TRel t t' ∧ t'.root.changes = [] ∧ t'.root.dragSource = t.root.dragSource ∧
+      SameRC t t' := by
   have inv0 : TInv { t with root := { t.root with changes := [] } } :=
     inv.of_rel (t' := { t with root := { t.root with changes := [] } }) (TRel.refl t) (by intro r hr; simp at hr) (fun s hs => hs)
-  obtain ⟨t', h, inv', hrel, hr⟩ := runRequests_ok t.root.changes inv0 rfl (by
+  obtain ⟨t', h, inv', hrel, hr, hrc⟩ := runRequests_ok t.root.changes inv0 rfl (by
     intro q hq
     obtain ⟨hk, w, hl, hp, _⟩ := inv.req_ok q hq
     exact ⟨⟨w, hl, hp⟩, hk⟩)
-  refine ⟨t', ?_, inv', hrel, by rw [hr], by rw [hr]⟩
+  refine ⟨t', ?_, inv', hrel, by rw [hr], by rw [hr], hrc⟩
   unfold flushT
   simp only [get_live hroot, bind_ok]
   exact h
@@ -183,14 +184,14 @@ theorem heldW_live {st : St} {w : Nat} (h : heldW st w = true) : ∃ ww, LiveW s
 /-- `_request_hierarchy_change` on a window below the root. -/
 theorem request_ok {t : Tree} (inv : TInv t) {c : Change} (hc : isRestack c = true) {win : Nat} {ww : Win}
     (hw : LiveW t win ww) (hr : Reach t win 0) :
-    ∃ t', request t c win = .ok t' ∧ TInv t' ∧ TRel t t' ∧ t'.root.dragSource = t.root.dragSource := by
+    ∃ t', request t c win = .ok t' ∧ TInv t' ∧ t'.wins = t.wins := by
   unfold request
   simp only [get_live hw, bind_ok]
   cases hp : ww.parent with
-  | none => exact ⟨t, rfl, inv, TRel.refl t, rfl⟩
+  | none => exact ⟨t, rfl, inv, rfl⟩
   | some p =>
     simp only [getRootA_ok inv win ww hw hr _ (chainFuel_gt hw), bind_ok, pure_ok]
-    refine ⟨_, rfl, ?_, TRel.refl t, rfl⟩
+    refine ⟨_, rfl, ?_, rfl⟩
     refine inv.of_rel_gen (t' := { t with root := { t.root with changes := t.root.changes ++ [⟨c, p, win⟩] } })
       (TRel.refl t) ?_ (fun s hs => inv.drag_ok s hs)
     intro r hr'
